@@ -679,6 +679,12 @@ def extract_fn(src, spec, unit_rules):
     if spec.get("ghost_params"):
         has_inputs = len(item["inputs"]) > 0
         ed.insert(item["paren"][1] - 1, (", " if has_inputs else "") + spec["ghost_params"], "ghost")
+    for pname, newty in spec.get("retype_params", {}).items():
+        ps = [p for p in item["inputs"] if not p.get("self") and p.get("pat") == pname]
+        if not ps:
+            raise LostAnchor(f"parameter `{pname}` of {spec['path']}")
+        ed.replace(ps[0]["ty"][0], ps[0]["ty"][1], newty, "R7")
+        ed.count("R7")
     contract = (
         clause("requires", spec.get("requires"))
         + clause("ensures", spec.get("ensures"))
@@ -971,6 +977,8 @@ def extract_type(src, spec, unit_rules):
         r9_visibility(src, item, ed, spec)
         if item["kind"] == "struct":
             for f in item.get("fields", []):
+                if f["name"] in spec.get("collapse", []):
+                    continue
                 v = f["vis"]
                 if v[1] > v[0]:
                     ed.replace(v[0], v[1], "pub", "R9")
